@@ -127,6 +127,9 @@ class StlAstParserVisitor(LtlAstParserVisitor, StlParserVisitor):
 
 
     def literal_to_fraction(self, text):
+        # the grammar admits runs of digit-group underscores (0x1__F), int() does not
+        if hasattr(text, 'replace'):
+            text = text.replace('_', '')
         try:
             return Fraction(Decimal(text))
         except ArithmeticError:
